@@ -28,6 +28,14 @@ CHECKS = {
          "Bounded symbolic model checking over the rendered fields: every datetime has exactly one rendering per form, so quantifying over all digit values of a form covers all datetimes in that form. "
          "Each path shows: a well-formed rendering is accepted, and the returned value equals the denotation (fraction truncation, 24:00, zero offset == tz.UTC, tzoffset seconds).",
          "Trusted: as C20. Forms outside the cell list, fractions longer than the listed digit counts, str/stream input equivalence and digit separators under sep=None are outside.", "§5 C07", "chx"),
+ "C10": ("symbolic execution (CrossHair core + z3) of the real rruleset._iter / rrulebase caching with solver-integer instants; every coincidence/ordering pattern of up to 12 instants is a path; soundness+completeness+order of each listing asserted fork-free; path-exhaustive per operation history",
+         "model_checking",
+         "Bounded symbolic model checking over member instants (all orderings and coincidences) for a list of concrete add/iterate/query histories, cache on and off.",
+         "Trusted: instants modelled as integers, stub rule members (iterables of increasing instants); heapq/sort under the tracer, each path witness replayed natively. Histories outside the cell list and >12 instants are outside.", "§5 C10", "chx"),
+ "C12": ("symbolic execution (CrossHair core + z3) of rrulebase.__getitem__/__contains__/count/before/after/xafter/between over a carrier with solver-integer instants and symbolic query arguments, compared with Python list semantics; path-exhaustive per cell",
+         "model_checking",
+         "Bounded symbolic model checking: sequences of 0..4 symbolic instants, symbolic query instants (so equal-to-element / between / outside cases are solver cases), indices and slice bounds over -n-2..n+2 incl. None, inc both ways, after a prior query that varies the cache state.",
+         "Trusted: carrier is rruleset with integer rdates (the query code is rrulebase's and type-agnostic); replace() is outside; each path witness replayed natively.", "§5 C12", "chx"),
 }
 NA = {}
 
